@@ -145,11 +145,9 @@ impl<K: Ord + Copy, V> Dag<K, V> {
 
     /// Merge a DAG into this one.
     pub fn merge(&mut self, mut other: Self) {
-        let Some((root, _)) = other.roots().next() else {
-            return;
-        };
+        // N.b. start from every root: `other` is not necessarily connected.
         let mut visited = BTreeSet::new();
-        let mut queue = VecDeque::<K>::from([*root]);
+        let mut queue = other.roots().map(|(k, _)| *k).collect::<VecDeque<K>>();
 
         while let Some(next) = queue.pop_front() {
             if !visited.insert(next) {
